@@ -42,6 +42,27 @@ cocls::async<void> coro_contender(Ctx &c, int me, int rounds, int relstyle) {
     }
 }
 
+// event-driven contender: a callback awaiter registered with lock().subscribe(); its handler runs inline in whoever hands the mutex
+// over - inside that party's release - takes the ownership, does its critical section, releases from inside the handler (a release
+// nested in a release) and registers its next request from there
+struct CbContender : cocls::awaiter {
+    Ctx &c; int me, rounds, got = 0; cocls::promise<void> fin;
+    CbContender(Ctx &c, int me, int rounds) : c(c), me(me), rounds(rounds) { set_resume_fn([](cocls::awaiter *a, void *) noexcept -> cocls::suspend_point<void> { return static_cast<CbContender *>(a)->granted(); }); }
+    cocls::suspend_point<void> granted() {
+        for (;;) {
+            {
+                cocls::mutex::ownership own = c.mx.lock().await_resume();
+                dsim::cell_add(GRANTS + me, 1);
+                enter_cs(me); dsim::yield(); leave_cs(me);
+            }       // released by destruction, here inside the handler
+            if (++got == rounds) return fin();
+            auto aw = c.mx.lock();
+            if (!aw.await_ready() && aw.subscribe(this)) return {};          // parked again: the next release calls granted()
+        }
+    }
+    void start() { auto aw = c.mx.lock(); if (!aw.await_ready() && aw.subscribe(this)) return; granted().clear(); }
+};
+
 void blocking_contender(Ctx &c, int me, int rounds, int style) {
     for (int r = 0; r < rounds; r++) {
         if (style == 0) {
@@ -64,7 +85,7 @@ void dsim_scenario() {
     Ctx c;
     std::vector<std::thread> th;
     int rounds[4], kind[4], rel[4];
-    for (int i = 0; i < n; i++) { kind[i] = dsim::choose(4); rounds[i] = 1 + dsim::choose(3); rel[i] = dsim::choose(4); }
+    for (int i = 0; i < n; i++) { kind[i] = dsim::choose(5); rounds[i] = 1 + dsim::choose(3); rel[i] = dsim::choose(4); }
     dsim::plan_note("n=%d", n);
     for (int i = 0; i < n; i++) dsim::plan_note(" [%d:k%d r%d rel%d]", i, kind[i], rounds[i], rel[i]);
     for (int i = 0; i < n; i++) {
@@ -76,6 +97,7 @@ void dsim_scenario() {
                 auto f2 = coro_contender(c, i + 4, rounds[i], (rel[i] + 1) % 4).start();
                 f1.wait(); f2.wait();
             }
+            else if (kind[i] == 4) { CbContender cb(c, i, rounds[i]); cocls::future<void> f; cb.fin = f.get_promise(); cb.start(); f.wait(); }
             else blocking_contender(c, i, rounds[i], kind[i] - 1);
         });
     }
